@@ -77,6 +77,31 @@ pub enum Clause {
     Pg { t: Ref, bad: bool },
     /// RETRACT ASSERTION target [EXPECT STATE active(0)/retracted(1)]
     Rt { t: Ref, expect: Option<u8> },
+    /// SUPERSEDE ASSERTION old BY new [EXPECT STATE status code]
+    Su { t: Ref, by: Ref, expect: Option<u8> },
+    /// CORRECT EVIDENCE old BY new [EXPECT STATE …: parsed, never evaluated by the engine — `guard` only renders it]
+    Co { t: Ref, by: Ref },
+    /// TRANSITION ACTIVITY target TO status [EXPECT STATE status]
+    Tr { t: Ref, to: u8, expect: Option<u8> },
+    /// SET RETENTION target {retention_class: "r<v>"} [EXPECT VERSION n]
+    Sr { t: Ref, v: u32, expect: Option<u64> },
+}
+
+/// lifecycle status codes shared with the model (`Model/Tx.lean`): 0 as created, 1 retracted, 2 empty
+/// (identity stub / shell), 3 superseded, 4 corrected, 5 running, 6 completed, 7 failed
+pub fn status_name(kind: char, code: u8) -> &'static str {
+    match code {
+        0 => if kind == 'X' { "pending" } else { "active" },
+        1 => "retracted", 3 => "superseded", 4 => "corrected", 5 => "running", 6 => "completed", 7 => "failed",
+        _ => "",
+    }
+}
+pub fn status_code(status: &str) -> u32 {
+    match status {
+        "active" | "pending" => 0, "retracted" => 1, "" => 2, "superseded" => 3, "corrected" => 4,
+        "running" => 5, "completed" => 6, "failed" => 7,
+        _ => 9,
+    }
 }
 
 #[derive(Clone, Debug, PartialEq, Eq)]
@@ -109,6 +134,10 @@ impl Clause {
             Clause::Ss { t, to, expect } => format!("ss:{}:{to}:{}", t.tok(), opt(expect)),
             Clause::Rt { t, expect } => format!("rt:{}:{}", t.tok(), opt(expect)),
             Clause::Pg { t, bad } => format!("pg:{}:{}", t.tok(), *bad as u8),
+            Clause::Su { t, by, expect } => format!("su:{}:{}:{}", t.tok(), by.tok(), opt(expect)),
+            Clause::Co { t, by } => format!("co:{}:{}", t.tok(), by.tok()),
+            Clause::Tr { t, to, expect } => format!("tr:{}:{to}:{}", t.tok(), opt(expect)),
+            Clause::Sr { t, v, expect } => format!("sr:{}:{v}:{}", t.tok(), opt(expect)),
         }
     }
     pub fn parse(tok: &str) -> Option<Clause> {
@@ -125,6 +154,10 @@ impl Clause {
             }
             ["ud", t, acts, ex, bad] => Clause::Ud { t: Ref::parse(t)?, acts: acts.split(',').map(Act::parse).collect::<Option<Vec<_>>>()?, expect: popt(ex)?, bad: pbool(bad)? },
             ["pg", t, bad] => Clause::Pg { t: Ref::parse(t)?, bad: pbool(bad)? },
+            ["su", t, by, ex] => Clause::Su { t: Ref::parse(t)?, by: Ref::parse(by)?, expect: popt(ex)? },
+            ["co", t, by] => Clause::Co { t: Ref::parse(t)?, by: Ref::parse(by)? },
+            ["tr", t, to, ex] => Clause::Tr { t: Ref::parse(t)?, to: to.parse().ok()?, expect: popt(ex)? },
+            ["sr", t, v, ex] => Clause::Sr { t: Ref::parse(t)?, v: v.parse().ok()?, expect: popt(ex)? },
             ["rt", t, ex] => {
                 let expect: Option<u8> = popt(ex)?;
                 if expect.is_some_and(|v| v > 1) { return None; }
@@ -145,6 +178,7 @@ impl Clause {
             Clause::Cr { kind: 'A', .. } => "create_assertion", Clause::Cr { kind: 'E', .. } => "create_evidence",
             Clause::Cr { .. } => "create_activity", Clause::Ud { .. } => "update",
             Clause::Ss { to: 'r', .. } => "archive", Clause::Ss { .. } => "tombstone", Clause::Rt { .. } => "retract", Clause::Pg { .. } => "purge",
+            Clause::Su { .. } => "supersede", Clause::Co { .. } => "correct", Clause::Tr { .. } => "transition", Clause::Sr { .. } => "set_retention",
         }
     }
 }
@@ -266,6 +300,19 @@ pub fn render(st: &Stmt) -> (String, BTreeMap<String, String>) {
                 let e = expect.map(|c| format!(" EXPECT STATE \"{}\"", state_name(c))).unwrap_or_default();
                 format!("{} {}{e}", if *to == 'r' { "ARCHIVE" } else { "TOMBSTONE" }, r(t, &mut params))
             }
+            Clause::Su { t, by, expect } => {
+                let e = expect.map(|v| format!(" EXPECT STATE \"{}\"", status_name('A', v))).unwrap_or_default();
+                format!("SUPERSEDE ASSERTION {} BY {}{e}", r(t, &mut params), r(by, &mut params))
+            }
+            Clause::Co { t, by } => format!("CORRECT EVIDENCE {} BY {}", r(t, &mut params), r(by, &mut params)),
+            Clause::Tr { t, to, expect } => {
+                let e = expect.map(|v| format!(" EXPECT STATE \"{}\"", status_name('X', v))).unwrap_or_default();
+                format!("TRANSITION ACTIVITY {} TO \"{}\"{e}", r(t, &mut params), status_name('X', *to))
+            }
+            Clause::Sr { t, v, expect } => {
+                let e = expect.map(|v| format!(" EXPECT VERSION {v}")).unwrap_or_default();
+                format!("SET RETENTION {} {{retention_class: \"r{v}\"}}{e}", r(t, &mut params))
+            }
         });
     }
     let text = if parts.len() == 1 && !st.dry { parts.remove(0) } else { format!("MUTATE {{\n  {}\n}}", parts.join("\n  ")) };
@@ -335,6 +382,51 @@ pub fn gen_stmt(r: &mut Rng, known: &Known) -> Stmt {
             }
             if c.is_empty() { None } else { Some(r.pick(&c).clone()) }
         };
+        // the record-lifecycle clauses (SUPERSEDE / CORRECT / TRANSITION / SET RETENTION): targets are
+        // existing records or records this block creates; sometimes the wrong kind, itself, a stale guard
+        if r.chance(1, 7) {
+            let of = |k: char, hs: &Vec<(u32, char, u32)>| -> Vec<Ref> {
+                let mut v: Vec<Ref> = known.others.iter().filter(|o| o.0.starts_with(k)).map(|o| Ref::Id(o.0.clone())).collect();
+                v.extend(hs.iter().filter(|h| h.1 == k).map(|h| Ref::H(h.0)));
+                v
+            };
+            let wrong = |r: &mut Rng| -> Option<Ref> { if known.concepts.is_empty() { None } else { Some(Ref::Id(r.pick(&known.concepts).0.clone())) } };
+            let made: Option<Clause> = match r.below(4) {
+                0 => {
+                    let a = of('A', &hs);
+                    if a.is_empty() { None } else {
+                        let t = r.pick(&a).clone();
+                        let by = if r.chance(1, 10) { t.clone() } else if r.chance(1, 10) { wrong(r).unwrap_or_else(|| t.clone()) } else { r.pick(&a).clone() };
+                        let expect = if want_bad { Some(1) } else if r.chance(1, 3) { Some(if r.chance(2, 3) { 0 } else { 3 }) } else { None };
+                        Some(Clause::Su { t, by, expect })
+                    }
+                }
+                1 => {
+                    let e = of('E', &hs);
+                    if e.is_empty() { None } else {
+                        let t = r.pick(&e).clone();
+                        let by = if r.chance(1, 10) { t.clone() } else if r.chance(1, 10) { wrong(r).unwrap_or_else(|| t.clone()) } else { r.pick(&e).clone() };
+                        Some(Clause::Co { t, by })
+                    }
+                }
+                2 => {
+                    let x = of('X', &hs);
+                    if x.is_empty() { None } else {
+                        let t = if r.chance(1, 12) { wrong(r).unwrap_or_else(|| r.pick(&x).clone()) } else { r.pick(&x).clone() };
+                        let expect = if want_bad { Some(7) } else if r.chance(1, 3) { Some(if r.chance(1, 2) { 0 } else { 5 }) } else { None };
+                        Some(Clause::Tr { t, to: 5 + r.below(3) as u8, expect })
+                    }
+                }
+                _ => {
+                    if known.all.is_empty() { None } else {
+                        let pick = r.pick(&known.all).clone();
+                        let expect = if want_bad { Some(9) } else if r.chance(1, 4) { Some(pick.1) } else { None };
+                        Some(Clause::Sr { t: Ref::Id(pick.0.clone()), v: 1 + r.below(3) as u32, expect })
+                    }
+                }
+            };
+            if let Some(c) = made { clauses.push(c); continue; }
+        }
         let choice = r.below(100);
         let c = match choice {
             0..=21 => {
